@@ -452,7 +452,8 @@ def rule_read(ctx):
         if ccls is not None:
             psig = p.init_chain_signature(ccls)
             for i in range(2):
-                pattr = {n_: f"c{i}-{n_}" for n_ in psig.named() if n_ != "value"}
+                # attribute values are data (a BLOB format may begin or end with a blank): nothing trims them
+                pattr = {n_: (f" c{i}-{n_}\t" if n_ != "name" else f"c{i}-{n_}") for n_ in psig.named() if n_ != "value"}
                 kids.append((ccls, pattr, f"  child{i} text \n"))
         specs.append((ci, attrib, "  some text  " if has_value else None, kids))
     bad = False
@@ -553,7 +554,7 @@ def rule_read(ctx):
 # 'the same attributes': a constructor that drops an argument under some condition breaks the round trip
 # the receive path is how a serialised message is parsed in practice: the scan must find it whatever text it carries
 # a message the codec produced must also survive the framing loop's 'is this a message?' test (C02.TRUTHY)
-IMPORTS = [('C20', 'C20.CTOR'), ('C02', 'C02.FIND'), ('C02', 'C02.DISCARD'), ('C02', 'C02.TRUTHY')]
+IMPORTS = [('C20', 'C20.CTOR'), ('C02', 'C02.FIND'), ('C02', 'C02.DISCARD'), ('C02', 'C02.TRUTHY'), ('C02', 'C02.LOOP')]  # C02.LOOP: what a transport hands to the parser is what it read (no per-line trimming)
 
 EXPLANATION = EXPLANATION + ' C03.WRITE additionally writes a text whose every character matters (runs of blanks, tab, newline, leading/trailing blank, markup characters) into every attribute and element text and requires it to reach the ElementTree element verbatim.'
 
